@@ -146,8 +146,11 @@ def task(nconn, strip, literal_name=False, direct_wired=False):
         x = ctx.fresh_name("tx")
         pin2 = ctx.template(("", ".", ""))
         if direct_wired:
-            st0.pc.append(spec.wired(ctx, st0.g(me), st0.bb(me), pin2))
-            st0.pc.append(spec.wired(ctx, gs, st0.bb(sc), pin2))
+            R, Rc = ctx.arr_nb("removed_by_caller"), ctx.arr_nb("removed_in_child")
+            st0.pc.append(spec.wired(ctx, st0.g(me), st0.bb(me), pin2, lambda n: z3.Select(R, n)))
+            st0.pc.append(spec.wired(ctx, gs, st0.bb(sc), pin2, lambda n: z3.Select(Rc, n)))
+            H["removed_after"] = lambda n: z3.Or(z3.Select(R, n), z3.And(n == pre(H["unpre"](n)), z3.Select(Rc, H["unpre"](n))))
+            H["removed_before"] = lambda n: z3.Select(R, n)
         else:
             st0.pc.append(z3.ForAll([x], z3.Implies(gs.node(x), z3.Select(gs.hasty, x))))   # sc.inputs() needs typed nodes
             st0.pc.append(spec.typed(ctx, st0.g(me)))
@@ -175,7 +178,7 @@ def task(nconn, strip, literal_name=False, direct_wired=False):
                 g1, bb1 = o.st.g(me), o.st.bb(me)
                 what = "raise(" + str(o.exc) + ")" if o.kind == "raise" else "return"
                 for lab, f in [("graph-invariant", g1.wf(ctx)), ("typed", spec.typed(ctx, g1)), ("wiring", spec.wired_edges(ctx, g1)),
-                               ("registry", spec.registry_ok(ctx, g1, bb1, pin2, None))]:
+                               ("registry", spec.registry_ok(ctx, g1, bb1, pin2, H["removed_before"] if o.kind == "raise" else H["removed_after"]))]:
                     ctx.oblige(f"{label}/wired#{i}:{what}:{lab}", o.st.pc, f, "post")
                 if o.kind == "raise":
                     n_exc += 1
@@ -323,7 +326,8 @@ def task_add_blackbox_connections():
         me = verify.mk_circuit(ex, st0, "self", wf=False)
         pin2 = ctx.template(("", ".", ""))
         g0, bb0 = st0.g(me), st0.bb(me)
-        st0.pc.append(spec.wired(ctx, g0, bb0, pin2))
+        R = ctx.arr_nb("removed_by_caller")
+        st0.pc.append(spec.wired(ctx, g0, bb0, pin2, lambda n: z3.Select(R, n)))
         name = NameV(ctx.fresh_name("name"))
         b = BBVal(ctx.fresh("blackbox", ctx.BB))
         H["pin"] = layer2.pin_fn(ex, name)
@@ -341,7 +345,7 @@ def task_add_blackbox_connections():
             g1, bb1 = o.st.g(me), o.st.bb(me)
             what = "raise(" + str(o.exc) + ")" if o.kind == "raise" else "return"
             for lab, f in [("graph-invariant", g1.wf(ctx)), ("typed", spec.typed(ctx, g1)), ("wiring", spec.wired_edges(ctx, g1)),
-                           ("registry", spec.registry_ok(ctx, g1, bb1, pin2, None))]:
+                           ("registry", spec.registry_ok(ctx, g1, bb1, pin2, lambda n: z3.Select(R, n)))]:
                 ctx.oblige(f"{label}/wired#{i}:{what}:{lab}", o.st.pc, f, "post")
             if o.kind == "raise":
                 n_exc += 1
@@ -364,13 +368,15 @@ QUAL_FILL = "Circuit.fill_blackbox"
 
 def task_fill_blackbox():
     """C07 on the body of fill_blackbox(name, c): `wired` on every exit; a rejected call leaves the circuit as it was.
-    Domain of the proved variant: every pin node of the filled instance is present (no pin removed by the caller) and
-    is not at the same time a pin node of another instance (R2 below) -- histories outside it are bounded-checked."""
+    Pins of the filled instance may be absent (removed by the caller); a present one is a pin by the code's own check.
+    One assumption beyond `wired` (R2 below): a pin node of the filled instance is not at the same time a pin node of
+    another recorded instance unless the caller removed it (add_blackbox's freshness check guarantees this for nodes
+    that were never removed)."""
     def run(ctx):
         import ast as _ast
         from pyvc.exec import BBVal
         fn, seg, sha = engine.find_function(F, QUAL_FILL)
-        label = f"{QUAL_FILL}[all pins present]"
+        label = f"{QUAL_FILL}[pins present or removed]"
         T = ctx.tval
         H = {}
         pre = lambda n: H["pre"](n)
@@ -442,10 +448,15 @@ def task_fill_blackbox():
         pin2 = ctx.template(("", ".", ""))
         unpin2 = ctx.template_inverse[("", ".", "")]
         g0, bb0, gc, bc = st0.g(me), st0.bb(me), st0.g(c), st0.bb(c)
-        st0.pc.append(spec.wired(ctx, g0, bb0, pin2))
-        st0.pc.append(spec.wired(ctx, gc, bc, pin2))
         name = NameV(ctx.fresh_name("name"))
         nm = name.term
+        # R / Rc: pin nodes removed by the caller earlier (in the parent / in the child); the filled instance itself is
+        # treated as entirely exempt (its pins may be absent; present ones are checked to be pins by the code)
+        R, Rc = ctx.arr_nb("removed_by_caller"), ctx.arr_nb("removed_in_child")
+        _b0 = z3.Select(bb0.val, nm)
+        _own = lambda t: z3.And(t == pin2(nm, unpin2(nm, t)), z3.Or(ctx.bb_in(_b0, unpin2(nm, t)), ctx.bb_out(_b0, unpin2(nm, t))))
+        st0.pc.append(spec.wired(ctx, g0, bb0, pin2, lambda n: z3.Or(z3.Select(R, n), _own(n))))
+        st0.pc.append(spec.wired(ctx, gc, bc, pin2, lambda n: z3.Select(Rc, n)))
         H["pre"], H["unpre"] = layer2.prefix_fn(ex, name)
         unpre = H["unpre"]
         bterm = z3.Select(bb0.val, nm)
@@ -459,7 +470,8 @@ def task_fill_blackbox():
         # R2: a pin node of the filled instance is not a pin node of another recorded instance
         i_, p_ = ctx.fresh_name("ri"), ctx.fresh_name("rp")
         st0.pc.append(z3.ForAll([i_, p_], z3.Implies(z3.And(z3.Select(bb0.dom, i_), i_ != nm,
-                                                          z3.Or(ctx.bb_in(z3.Select(bb0.val, i_), p_), ctx.bb_out(z3.Select(bb0.val, i_), p_))),
+                                                          z3.Or(ctx.bb_in(z3.Select(bb0.val, i_), p_), ctx.bb_out(z3.Select(bb0.val, i_), p_)),
+                                                          z3.Not(z3.Select(R, pin2(i_, p_)))),
                                                    z3.Not(ispin(pin2(i_, p_))))))
 
         def cut_after_update(ex_, st):
@@ -485,7 +497,8 @@ def task_fill_blackbox():
             g1, bb1 = o.st.g(me), o.st.bb(me)
             what = "raise(" + str(o.exc) + ")" if o.kind == "raise" else "return"
             for lab, f in [("graph-invariant", g1.wf(ctx)), ("typed", spec.typed(ctx, g1)), ("wiring", spec.wired_edges(ctx, g1)),
-                           ("registry", spec.registry_ok(ctx, g1, bb1, pin2, None))]:
+                           ("registry", spec.registry_ok(ctx, g1, bb1, pin2, (lambda n: z3.Or(z3.Select(R, n), _own(n))) if o.kind == "raise" else
+                                                         (lambda n: z3.Or(z3.Select(R, n), z3.And(n == pre(unpre(n)), z3.Select(Rc, unpre(n)))))))]:
                 ctx.oblige(f"{label}/wired#{i}:{what}:{lab}", o.st.pc, f, "post")
             if o.kind == "raise":
                 n_exc += 1
@@ -495,6 +508,23 @@ def task_fill_blackbox():
             else:
                 n_ret += 1
                 ctx.oblige(f"{label}/filled-instance-unregistered#{i}", o.st.pc, z3.Not(z3.Select(bb1.dom, nm)), "post")
+                # C06 (structure of the splice): a renamed copy of c replaces the instance's pin nodes
+                t, u, v = ctx.fresh_name("st"), ctx.fresh_name("su"), ctx.fresh_name("sv")
+                in_b = lambda n_: ctx.bb_in(bterm, n_)
+                bimg = lambda t_: z3.And(t_ == pre(unpre(t_)), z3.Select(bc.dom, unpre(t_)))
+                splice = [
+                    ("nodes", z3.ForAll([t], g1.node(t) == z3.Or(z3.And(g0.node(t), z3.Not(ispin(t))), img(t)))),
+                    ("copied-types", z3.ForAll([t], z3.Implies(img(t), z3.And(z3.Select(g1.hasty, t), z3.Select(g1.ty, t) ==
+                                                                              z3.If(in_b(unpre(t)), T["buf"], z3.Select(gc.ty, unpre(t))))))),
+                    ("other-types", z3.ForAll([t], z3.Implies(z3.And(g0.node(t), z3.Not(ispin(t)), z3.Not(img(t))), z3.Select(g1.ty, t) == z3.Select(g0.ty, t)))),
+                    ("edges", z3.ForAll([u, v], g1.edge(u, v) == z3.Or(z3.And(N1(u), N1(v), g0.edge(back(u), back(v))),
+                                                                        z3.And(img(u), img(v), gc.edge(unpre(u), unpre(v)))))),
+                    ("registry-domain", z3.ForAll([t], z3.Select(bb1.dom, t) == z3.Or(z3.And(z3.Select(bb0.dom, t), t != nm), bimg(t)))),
+                    ("registry-values", z3.ForAll([t], z3.Implies(z3.Select(bb1.dom, t), z3.Select(bb1.val, t) ==
+                                                                  z3.If(bimg(t), z3.Select(bc.val, unpre(t)), z3.Select(bb0.val, t))))),
+                ]
+                for lab, f in splice:
+                    ctx.oblige(f"{label}/splice#{i}:{lab}", o.st.pc, f, "post")
         ctx.oblige(f"{label}/cover:returns-and-rejects", [], z3.BoolVal(n_ret > 0 and n_exc > 0), "cover")
         return {"function": f"{F}::{QUAL_FILL}", "sha256": sha, "lines": engine.abs_lines(fn), "variants": [label], "kind": "postcondition on the body"}
     return run
